@@ -78,9 +78,9 @@ impl World for W6 {
                 id: "C38",
                 batches: vec![
                     Batch { name: "single-replicated-ops", quick: 300, thorough: 15_000, faulty: false },
-                    Batch { name: "single-all-ops", quick: 500, thorough: 25_000, faulty: true },
+                    Batch { name: "single-all-ops", quick: 1_200, thorough: 25_000, faulty: true },
                     Batch { name: "three-replicated-ops", quick: 200, thorough: 10_000, faulty: false },
-                    Batch { name: "three-all-ops", quick: 400, thorough: 20_000, faulty: true },
+                    Batch { name: "three-all-ops", quick: 1_000, thorough: 20_000, faulty: true },
                 ],
                 rule: "one run = 1 or 3 coordinators started by the real raft::bootstrap (real openraft, MemStore) each with a real Coordinator::with_raft behind cluster_routes_with_raft, 2-3 simulated workers registering and heartbeating at their home coordinator (followers forward to the leader over the simulated transport), 4-14 API operations sent to any coordinator (deploy, teardown, manual migrate, drain, rebalance, connector create/update/delete) plus worker death/restart and isolation of the leader, and the health-loop tick on every coordinator every 5 simulated seconds. On the leader every tick brackets sync_from_raft with two views (worker status / assignments / running count, group placements, connectors): any difference means the re-synchronisation undid a change the coordinator had acknowledged or made itself; at quiescence each follower's view must equal the leader's. The *-replicated-ops batches use only operations whose handlers replicate everything they change (connector CRUD, teardown) and keep the full oracle. Non-trivial = >= 2 operations answered 2xx; distinct = distinct decoded-trace hash.",
                 real: vec!["raft::bootstrap (openraft, MemStore, NetworkFactory), Coordinator::{with_raft, sync_from_raft, update_raft_role, health_sweep, handle_worker_failure, reconcile_placements, rebalance}", "api::cluster_routes_with_raft handlers incl. forward_to_leader and their ClusterCommand replication points", "raft_routes"],
